@@ -62,6 +62,26 @@ func (d zzTData) zzTensor() tensor.Tensor {
 	return zzverif.NewTensor(d.f, d.shape)
 }
 
+// zzLazyT builds the same logical tensor as zzTensor, laid out as the lazy transpose of its
+// transposed storage (x.T() without Transpose(): strides say "transposed", the elements have not moved).
+func (d zzTData) zzLazyT() tensor.Tensor {
+	if d.kind != "f32" || len(d.shape) != 2 {
+		return d.zzTensor()
+	}
+	r, c := d.shape[0], d.shape[1]
+	stored := make([]float32, r*c)
+	for i := 0; i < r; i++ {
+		for j := 0; j < c; j++ {
+			stored[j*r+i] = d.f[i*c+j]
+		}
+	}
+	t := zzverif.NewTensor(stored, []int{c, r})
+	if err := t.T(); err != nil {
+		panic(err)
+	}
+	return t
+}
+
 func (d zzTData) zzProto() *onnx.TensorProto {
 	dims := make([]int64, len(d.shape))
 	for i, x := range d.shape {
@@ -91,8 +111,14 @@ func (d zzTData) zzProto() *onnx.TensorProto {
 func zzBuildModel(g zzGraph, inits []zzTData) *onnx.ModelProto {
 	gp := &onnx.GraphProto{}
 	for _, spec := range g.inputs {
-		name, _ := zzParseTensorSpec(spec)
-		gp.Input = append(gp.Input, &onnx.ValueInfoProto{Name: name}) // no type: any shape is accepted
+		// declared with its rank and symbolic dimensions only: any extents are accepted, a missing tensor or
+		// another rank is refused by the signature check (before any node runs)
+		name, shape := zzParseTensorSpec(spec)
+		var dims []*onnx.TensorShapeProto_Dimension
+		for k := range shape {
+			dims = append(dims, &onnx.TensorShapeProto_Dimension{Value: &onnx.TensorShapeProto_Dimension_DimParam{DimParam: "d" + string(rune('0'+k))}})
+		}
+		gp.Input = append(gp.Input, zzValueInfo(name, dims))
 	}
 	for _, d := range inits {
 		gp.Initializer = append(gp.Initializer, d.zzProto())
@@ -160,6 +186,9 @@ func H_C02(v *zzverif.T) {
 		var snaps []*zzverif.Snap
 		for _, d := range ds {
 			t := d.zzTensor()
+			if v.Has("lazyT") && v.CStr("lazyT") == d.name {
+				t = d.zzLazyT() // the caller hands over a lazily transposed tensor
+			}
 			ts[d.name] = t
 			list = append(list, t)
 			snaps = append(snaps, v.Snapshot(t))
@@ -215,6 +244,19 @@ func H_C02(v *zzverif.T) {
 		}
 		v.Assert("C02.run-without-an-input-fails", rb.err != nil || len(g.ops) == 0)
 		checkFrame("failing", listA, snapsA)
+	}
+
+	// a call refused for the element type of a tensor (the right shape, booleans where numbers are expected)
+	if len(inA) > 0 && inA[0].kind == "f32" {
+		wrong := Tensors{}
+		for k, t := range tA {
+			wrong[k] = t
+		}
+		wrong[inA[0].name] = zzverif.NewTensor(make([]bool, zzverif.Prod(inA[0].shape)), inA[0].shape)
+		if _, ok := run("wrong-element-type", m, wrong); !ok {
+			return
+		}
+		checkFrame("wrong-element-type", listA, snapsA)
 	}
 
 	// a call that passes the signature check but fails inside a node (e.g. a batch size the other inputs do not fit)
